@@ -280,7 +280,8 @@ SameAsDesired(o, d) ==
                             \/ \E lk \in DOMAIN d.labels : p = "metadata.labels." \o lk
                             \/ \E ak \in DOMAIN d.ann : p = "metadata.annotations." \o ak
   /\ \A lk \in DOMAIN d.labels : ("metadata.labels." \o lk) \in DOMAIN o.la
-  /\ (d.ns = "" <=> "metadata.namespace" \notin DOMAIN o.la)
+  \* (the namespace of a namespaced child is defaulted from the parent before the desired object is recorded)
+  /\ (o.ns = "" <=> "metadata.namespace" \notin DOMAIN o.la)
   \* a desired child that carried nothing but the last-applied annotation is recorded with an EMPTY annotations map
   /\ (d.hasLA /\ d.ann = <<>>) => "metadata.annotations" \in DOMAIN o.la
 DiffersInOwned(o, d) == ~SubFn(d.fields, o.fields) \/ ~SubFn(d.labels, o.labels)
